@@ -19,7 +19,7 @@ import fractions
 import z3
 
 Fr = fractions.Fraction
-MAX_TERMS = 60000
+MAX_TERMS = 20000
 
 
 class TooBig(Exception):
@@ -196,7 +196,24 @@ def reduce(p, rules, limit=400):
     raise TooBig()
 
 
+_CACHE = {}
+
+
 def build_rules(rules_terms, opaque):
+    """rules are only ever appended on a path: cache the normalised set per list and length"""
+    key = (id(rules_terms), len(rules_terms))
+    hit = _CACHE.get(key)
+    if hit is not None and hit[0] is rules_terms:
+        opaque.update(hit[1])
+        return dict(hit[2])
+    rules = _build_rules(rules_terms, opaque)
+    if len(_CACHE) > 64:
+        _CACHE.clear()
+    _CACHE[key] = (rules_terms, dict(opaque), dict(rules))
+    return rules
+
+
+def _build_rules(rules_terms, opaque):
     rules = {}
     for v, pw, rt in rules_terms:
         if isinstance(v, tuple):
@@ -220,8 +237,28 @@ def build_rules(rules_terms, opaque):
     return rules
 
 
+def _cheap(t, cap=250):
+    """small and free of divisions by non-constants"""
+    seen = set()
+    stack = [t]
+    while stack:
+        e = stack.pop()
+        i = e.get_id()
+        if i in seen:
+            continue
+        seen.add(i)
+        if len(seen) > cap:
+            return False
+        if z3.is_app_of(e, z3.Z3_OP_DIV) and not z3.is_rational_value(z3.simplify(e.children()[1])):
+            return False
+        stack.extend(e.children())
+    return True
+
+
 def normal_form_key(t, rules_terms):
     """a hashable normal form of t modulo the relations, or None"""
+    if not _cheap(t):
+        return None
     try:
         opaque = {}
         rules = build_rules(rules_terms, opaque)
